@@ -1,3 +1,4 @@
+import VivModel.Gen.Tables
 import VivModel.Lemmas.Topo
 /-! C09 — simulant initializers run in dependency order or not at all.
 
@@ -11,7 +12,9 @@ import VivModel.Lemmas.Topo
 * `toGraph_wf`, `edge_iff_requirement`, `requirement_chain_is_path`, `dup_producer_rejected`,
   `producers_unique`, `initializers_once`, `iteration_*`: `ResourceManager` for every registration history.
 * `*_declares`, `tracked_implicit`, `stream_depends_on_key_columns`, `value_depends_on_*`,
-  `pipeline_object_*`: the implicit dependencies the registration services add. -/
+  `postSetup_declares`, `modifier_registers`, `modifier_resource_is_value_dependency`,
+  `pipeline_object_*`: the implicit dependencies the registration services add (pipeline ← source and
+  every modifier under names that line up, stream ← key columns, initializer ← `tracked`). -/
 namespace Viv.Props.C09
 open Viv.Topo
 
@@ -489,5 +492,12 @@ example : checkObserved g4 [3, 2] [3, 2] = true ∧ checkObserved g4 [3, 2] [2, 
 example : Path ⟨[1, 2], [(1, 2), (2, 1)]⟩ 1 1 := Path.trans (v := 2) (Path.edge (by decide)) (Path.edge (by decide))
 example : topoSort ⟨[1, 2], [(1, 2), (2, 1)]⟩ = none := by decide
 example : (match addResources {} "column" ["a", "a"] "p" [] with | .error (.dupResource, _) => true | _ => false) = true := by decide
+
+/-- the resource types the model accepts are exactly `RESOURCE_TYPES` of the working tree's
+framework/resource.py (regenerated on every run), and the null type is `NULL_RESOURCE_TYPE` -/
+theorem gen_resource_types :
+    (Viv.Topo.resourceTypes.all Viv.Gen.resourceTypes.contains &&
+     Viv.Gen.resourceTypes.all Viv.Topo.resourceTypes.contains) = true ∧
+    Viv.Topo.nullType = Viv.Gen.nullResourceType := by decide
 
 end Viv.Props.C09
